@@ -69,6 +69,7 @@ type FuncContract struct {
 	Trusted  string // reason why extern
 	NoPanic  bool
 	Ghosts   []*Clause // ghost statements anchored in the body
+	ParamNames   []string    // explicit parameter names (function-value and interface contracts whose signature has none)
 	Implements   []string    // names of contracts (same package) whose clauses this function must also satisfy
 	ReplayInputs [][2]string // name, spec expression (evaluated at entry)
 	ReplaySetup  []string    // Go statements building the receiver / environment
@@ -110,7 +111,7 @@ type EffectDecl struct {
 	File   string
 }
 
-var keywordRe = regexp.MustCompile(`^(implements|audit|nonglobal|type|exec|replay-input|replay-setup|pred|fun|axiom|func|extern|requires|ensures|modifies|loop|behavior|props|partial|pure|inline|ghost|assert-at|assume-at|effects|trusted|nopanic|panics-when|ensures-on-panic|package|const|lemma)\b`)
+var keywordRe = regexp.MustCompile(`^(params|implements|audit|nonglobal|type|exec|replay-input|replay-setup|pred|fun|axiom|func|extern|requires|ensures|modifies|loop|behavior|props|partial|pure|inline|ghost|assert-at|assume-at|effects|trusted|nopanic|panics-when|ensures-on-panic|package|const|lemma)\b`)
 
 type rawLine struct {
 	text string
@@ -313,6 +314,11 @@ func (cs *Contracts) loadFile(path string) error {
 			cur.Inline = true
 		case "nopanic":
 			cur.NoPanic = true
+		case "params":
+			if cur == nil {
+				return fail(fmt.Errorf("params outside func"))
+			}
+			cur.ParamNames = splitList(rest)
 		case "implements":
 			if cur == nil {
 				return fail(fmt.Errorf("implements outside func"))
